@@ -1051,9 +1051,9 @@ ASSUMPTIONS = [
 def plan_enumeration(tier: str, batch_seed: int, plandir: str):
     rng = SimRandom(int.from_bytes(__import__('hashlib').sha256(f'{PROP}:enum:{batch_seed}'.encode()).digest()[:8], 'big'))
     jobs = []
-    info = {'worlds': [], 'exhaustive': True, 'modes': []}
+    info = {'worlds': [], 'sampled_worlds': [], 'exhaustive': True, 'exhaustive_refers_to': "every byte offset of the caches of the worlds listed under 'worlds' (sampled_worlds / large_world are strided)", 'modes': []}
     if tier == 'quick':
-        plan = [('lammps', ('E1', 'E2'), 1), ('vasp', ('E1', 'E2'), 1)]
+        plan = [('lammps', ('E1', 'E2'), 1), ('vasp', ('E1', 'E2'), 1), ('gromacs', ('E1', 'E2'), 6)]
     else:
         plan = []
         for fmt in ('lammps', 'vasp', 'gromacs'):
@@ -1065,8 +1065,9 @@ def plan_enumeration(tier: str, batch_seed: int, plandir: str):
         size = cache_size_of(d, args_idx, os.path.join(plandir, f'w{wi}'))
         if size <= 0:
             raise HarnessError(f'could not measure cache size for enumeration world {d}')
-        w = {'fmt': fmt, 'dataset': d, 'cache_bytes': size, 'stride': stride, 'modes': list(modes), 'offsets': size + 1}
-        info['worlds'].append(w)
+        w = {'fmt': fmt, 'dataset': d, 'cache_bytes': size, 'stride': stride, 'modes': list(modes), 'offsets': len(range(0, size + 1, stride)) + (1 if size % stride else 0),
+             'exhaustive': stride == 1}
+        info['worlds' if stride == 1 else 'sampled_worlds'].append(w)
         for m in modes:
             jobs += enum_scenarios(d, args_idx, size, m, chunk=24, stride=stride)
             if m == 'E1' and tier == 'thorough':
@@ -1091,5 +1092,5 @@ def plan_enumeration(tier: str, batch_seed: int, plandir: str):
         jobs += enum_scenarios(big, 0, bsize, 'E1', chunk=4, stride=stride)
     info['modes'] = sorted({m for _, ms, _ in plan for m in ms})
     info['scenarios'] = len(jobs)
-    info['offsets_total'] = sum(w['offsets'] * len(w['modes']) for w in info['worlds'])
+    info['offsets_total'] = sum(w['offsets'] * len(w['modes']) for w in info['worlds'] + info['sampled_worlds'])
     return jobs, info
